@@ -33,7 +33,8 @@ META = {
             "and the coupling reference (nf_ref 3-6), compute - with recording mocks for evolve, solve and Couplings - evolves a "
             "reference mass from the patch its scale lies in (3 + thresholds below Qm) to the wall of the patch adjoining its own "
             "threshold on the side of the coupling reference, solves there with that patch's nf, and builds each coupling from "
-            "the masses found so far.",
+            "the masses found so far."
+            " Instances with the reference scale on a matching scale (empty first segment, decoupling still applied) are included.",
     "note": "Level 'other': the root itself is not decided; two known findings in the decoupling step.",
     "technique": "array-shape lint at the fsolve call site; partial evaluation with mocked quadrature/coupling + series valuation; RG derivation with sympy; truth table by exhaustive PE",
     "engine": "sa",
